@@ -164,11 +164,14 @@ def run(chk):
     def do_multi(args):
         k, c = args
         out_ev = []
-        for order in ("first", "last"):
-            for lang in (["swift", "scala", "python", "go"] if thorough else ["swift", "python"]):
+        # the other crate: needs nothing (first / last), needs the same helpers itself (both), or holds nothing but a user alias and
+        # comes first (alias_first): every module defines or imports what IT uses, whatever the modules before it did
+        for order in ("first", "last", "both", "alias_first"):
+            for lang in (["swift", "scala", "python", "go"] if thorough else ["swift", "python", "scala"]):
                 d = os.path.join(work, f"m{k}{order}{lang}")
-                a, b = ("aaa", "zzz") if order == "first" else ("zzz", "aaa")
-                cli.make_tree(d, {f"{a}/src/lib.rs": source(c), f"{b}/src/lib.rs": "#[typeshare]\npub struct Plain { pub p: String }\n"})
+                a, b = ("zzz", "aaa") if order in ("last", "alias_first") else ("aaa", "zzz")
+                other = {"both": source(c), "alias_first": "#[typeshare]\npub type OnlyAlias = Vec<String>;\n"}.get(order, "#[typeshare]\npub struct Plain { pub p: String }\n")
+                cli.make_tree(d, {f"{a}/src/lib.rs": source(c), f"{b}/src/lib.rs": other})
                 open(os.path.join(d, "typeshare.toml"), "w").write("".join(f"[{l}.type_mappings]\n" + "".join(f'"{x}" = "{y}"\n' for x, y in m.items()) for l, m in MAPPINGS.items()))
                 args_ = ["-l", lang, "-c", os.path.join(d, "typeshare.toml"), "-d", os.path.join(d, "out"), d]
                 args_ += {"scala": ["--scala-package", "com.x"], "go": ["--go-package", "p"]}.get(lang, [])
